@@ -259,7 +259,12 @@ func (s *Sim) dial(ctx context.Context, p peer.ID) error {
 			}
 		}
 		if r.DialFail {
-			return errors.New("vsim: dial failed")
+			if r.Delay > 0 {
+				// like the swarm's own dial timeout: the error wraps context.DeadlineExceeded although the
+				// caller's context is still live
+				return fmt.Errorf("vsim: dial failed: failed to negotiate security protocol: %w", context.DeadlineExceeded)
+			}
+			return errors.New("vsim: dial failed: connection refused")
 		}
 	}
 	return ctx.Err()
